@@ -626,6 +626,13 @@ func c07(w *core.World, r *core.Report) {
 			r.Fail("sendRdb/setCheckpoint", f.Pos(), "no checkpoint write at the end of the snapshot replay")
 		}
 	}
+	// the (re)connection decisions of syncMeta decide what happens to the stored position (shared with C06)
+	r.Rule("R06.3", "PSYNC argument choice and cache clearing on every successful path of syncMeta (shared with C06)", 3)
+	r.Rule("R06.4", "reader start / writer offset / snapshot size definitions on every successful path of syncMeta (shared with C06)", 2)
+	r.Rule("R06.6", "one id for cache and bookkeeping; CONTINUE keeps the source's current id (shared with C06)", 2)
+	r.Rule("R06.10", "a full resynchronisation does not carry the target's old position over to the new replication id (shared with C06)", 2)
+	r.Rule("R06.14", "a granted continuation keeps the position the target holds: the output is told to drop it only on a full resynchronisation (shared with C06)", 1)
+	ruleSyncMetaPaths(w, r)
 }
 
 func isIfaceCall(v ssa.Value, suffix string) bool {
@@ -852,6 +859,7 @@ func c02(w *core.World, r *core.Report) {
 	r.Rule("R06.4", "reader start / writer offset / snapshot size definitions on every successful path of syncMeta (shared with C06)", 2)
 	r.Rule("R06.6", "one id for cache and bookkeeping; CONTINUE keeps the source's current id (shared with C06)", 2)
 	r.Rule("R06.10", "a full resynchronisation does not carry the target's old position over to the new replication id (shared with C06)", 2)
+	r.Rule("R06.14", "a granted continuation keeps the position the target holds (shared with C06)", 1)
 	ruleSyncMetaPaths(w, r)
 	r.Rule("R10.1", "nothing is forwarded while the source is in a withheld database: the offset a forwarded item carries would move the stored position past the database switch that was withheld, and a restart resumes in the wrong database (shared with C10)", 4)
 	ruleForwardConsultsFilters(w, r)
